@@ -53,6 +53,9 @@ ASSUMPTIONS = [
     "ExcelFormerConv(num_cols = 1) accepts inputs with any number of columns (the [1,1] mask broadcasts) and then "
     "runs unmasked; this configuration is excluded from the model's guard theorem (hypothesis 1 < num_cols) and "
     "is generated only with a 1-column input",
+    "wide inputs (127..300 columns: boundaries of 8-bit integer buffers) are checked by the direct oracle only "
+    "(causality / equivariance / row-wiseness probed at columns around 128 and 256); the provenance model is not run "
+    "on them (cost), and a 16-bit wrap (32768+ columns) is not reachable",
     "the Coq side runs with each case's own channels / heads / columns / prompts / out_channels; the head reshape "
     "and the einsum / mask orientation are compared at CHANNEL granularity on the real module with identity q/k/v "
     "projections (attention-core probe); for full-attention layers the column footprint itself is 'everything', so "
@@ -62,6 +65,56 @@ ASSUMPTIONS = [
     "evaluation mode (dropout inactive); finiteness and determinism observed",
 ]
 KINDS = ["tab_conv", "ft_convs", "excel_conv", "trompt_conv", "trompt_decoder", "excel_decoder"]
+
+# ERROR_PATHS -- every raise / assert / special-case branch / dtype cast / integer buffer / hand-written numerically
+# "safe" formula in the anchored code, the generator kind that reaches it, and the oracle key that notices a change.
+#
+#  excelformer_conv.py
+#   DiaM.__init__ `assert channels % num_heads == 0` (only if heads > 1) .... extra(): constructor probe, key
+#                                                                             accepts-invalid-config:excel_conv
+#   DiaM.__init__ `lin_out = Linear(...) if num_heads > 1 else None` .......... cases heads = 1 and heads >= 2 (sanity),
+#                                                                             core probe hooks the module output when
+#                                                                             lin_out is None; keys shape / no-influence
+#   `register_buffer('seq_ids', torch.arange(num_cols))` (int64 buffer) ....... wide cases cols in {127..130, 257, 300}
+#                                                                             (int8 / uint8 wrap): key not-causal
+#                                                                             (32768+ columns = int16 wrap is NOT
+#                                                                             reachable: the score tensor alone needs
+#                                                                             8 GB -- stated limit)
+#   get_attention_mask `<=` on seq_ids, `.float()` cast, `* -1e5` ............. every excel_conv case: column footprint and
+#                                                                             suffix probes (bit-exact), keys not-causal /
+#                                                                             no-influence; core probe (channel level);
+#                                                                             extra(): float check of the -1e5 mask for
+#                                                                             scores <= 2e4; sanity: measured max |q.k|
+#   `/ math.sqrt(d_heads)`, F.softmax (torch's own max-shift) ................ outlier-row probe (row * 1e4, 1e8): keys
+#                                                                             non-finite / row-leak
+#   ExcelFormerConv.forward `F.dropout(..., self.training)` .................. dropouts drawn > 0; key non-deterministic
+#   implicit: mask broadcast when x.shape[1] != num_cols ...................... rejection probes cols +- 1 (num_cols >= 2):
+#                                                                             Coq None-branch; num_cols = 1 excluded
+#  tab_transformer_conv.py
+#   `self.scale = d_head ** -0.5`, F.softmax(dim=-1) .......................... equivariance run, outlier-row probe, core probe
+#   `_reshape` (reshape / transpose / reshape; integer division channels // heads)  core probe with heads in {1,2,4},
+#                                                                             channels == heads; key not-equivariant
+#   GEGLU `x.chunk(2, dim=-1)` ................................................. every tab_conv case (shape key)
+#   `norm_2` constructed, unused ............................................... nothing to notice (mirrored in the model)
+#  ft_transformer_convs.py
+#   TransformerEncoderLayer(..., batch_first=True, activation=...) ............ activation relu / gelu, feedforward_channels
+#                                                                             None / other drawn (sanity); keys row-leak,
+#                                                                             cls-not-invariant, not-equivariant
+#   `x_concat[:, 0, :]`, `x_concat[:, 1:, :]` (CLS slot) ....................... cls-not-invariant, no-influence (CLS reach)
+#  trompt_conv.py
+#   two `assert ... shape ==` ................................................. rejection probes incl. broadcastable shapes:
+#                                                                             key accepts-mismatch:trompt_conv + Coq None
+#   GroupNorm(num_groups, num_prompts) (ValueError if not divisible) ........... groups in {1, 2, P} drawn; odd prompt
+#                                                                             counts raise in the constructor (torch)
+#   F.softmax(m_importance, dim=-1) over columns ............................... row subsets, outlier row, wide columns
+#  trompt_decoder.py
+#   `assert x.shape == ...` ................................................... rejection probes: accepts-mismatch:trompt_decoder
+#   F.softmax(lin_attn(x), dim=1) ............................................. row subsets, outlier row: batch-dependent
+#  excelformer_decoder.py
+#   `.squeeze(2)` (explicit axis) ............................................. out = 1 and B = 1 boundary cases: key shape
+#   PReLU weight filled with 0.25 .............................................. nothing structural
+#
+
 TRIALS = 8
 SIZES = [1.0, 10.0, 100.0]
 
@@ -123,11 +176,32 @@ def boundary_cases(rng, kind, tier):
     return out
 
 
+WIDE = [127, 128, 129, 130, 257, 300]
+
+
+def wide_cases(rng, kind, tier):
+    """Wide column dimension (integer buffers: 128 = int8, 256 = uint8 boundaries), small channels / heads / batch."""
+    if kind == "trompt_decoder":
+        return []
+    widths = WIDE if tier != "quick" else [rng.pick([127, 128]), rng.pick([129, 130]), rng.pick([257, 300])]
+    out = []
+    for w in widths:
+        c = gen_case(rng, kind, tier)
+        c.update(cols=w, channels=4, heads=rng.pick([1, 2]), B=rng.randint(1, 2), prompts=2, groups=rng.pick([1, 2]),
+                 layers=1, param_scale=0.3)
+        c["perm"] = list(range(w))
+        rng.shuffle(c["perm"])
+        c["idx"] = [rng.randrange(c["B"])]
+        out.append(c)
+    return out
+
+
 def generate(rng, tier):
     n = 24 if tier == "quick" else 600
     cases = []
     for kind in KINDS:
         cases += boundary_cases(rng, kind, tier)
+        cases += wide_cases(rng, kind, tier)
         for _ in range(n):
             cases.append(gen_case(rng, kind, tier))
     return cases
@@ -244,13 +318,17 @@ def _probe(case, layer):
         predicted = [[True] * n_out for _ in range(nin)]
     else:
         predicted = [[True] for _ in range(nin)]
+    # wide inputs: the columns around the 128 / 256 boundaries (integer buffers) and the ends; otherwise all
+    pc = list(range(nin)) if nin <= 16 else sorted({c for c in (0, 1, 126, 127, 128, 129, 130, 254, 255, 256, 257, nin - 2,
+                                                                nin - 1) if 0 <= c < nin})
+    o["colfp_cols"] = pc
     colfp = [[False] * n_out for _ in range(nin)]
     cls_reach = [False] * nin
     pfp = [[False] * Pn for _ in range(Pn)] if kind == "trompt_conv" else None
     rows = {r: set() for r in range(B)}
     trials = 0
     for t in range(TRIALS):
-        need_c = [c for c in range(nin) if any(predicted[c][j] and not colfp[c][j] for j in range(n_out))
+        need_c = [c for c in pc if any(predicted[c][j] and not colfp[c][j] for j in range(n_out))
                   or (cls is not None and not cls_reach[c])]
         need_p = [p for p in range(Pn) if pfp is not None and not pfp[p][p]]
         need_r = [r for r in range(B) if r not in rows[r]]
@@ -261,7 +339,7 @@ def _probe(case, layer):
             P.redraw_params(layer, t)
             out, cls = call(layer, case, x, xp)
         size = SIZES[t % 3]
-        for c in (range(nin) if t == 0 else need_c):
+        for c in (pc if t == 0 else need_c):
             x2 = x.clone()
             x2[:, c, :] += size * torch.randn(B, ch)          # a RANDOM vector per row, never a constant shift
             y2, c2 = call(layer, case, x2, xp)
@@ -287,24 +365,40 @@ def _probe(case, layer):
             if cls is not None:
                 ch_rows |= set(P.changed_rows(cls, c2))
             rows[r] |= ch_rows
-    o["colfp"], o["cls_reach"], o["pfp"] = colfp, (cls_reach if cls is not None else None), pfp
+    o["colfp"] = [colfp[c] for c in pc]
+    o["cls_reach"], o["pfp"] = ([cls_reach[c] for c in pc] if cls is not None else None), pfp
     o["rows"] = [[r, sorted(rows[r])] for r in range(B)]
     o["trials"] = trials
     # ---- ExcelFormerConv: suffix perturbations, all at once -------------------------------------------
     if kind == "excel_conv":
         suffix = []
-        for i in range(nin - 1):
+        for i in [c for c in pc if c < nin - 1]:
             x2 = x.clone()
             x2[:, i + 1:, :] += 10.0 * torch.randn(B, nin - 1 - i, ch)
             y2, _ = call(layer, case, x2, None)
             suffix.append([i, bool(torch.equal(y2[:, :i + 1], out[:, :i + 1])), bool(not torch.equal(y2, out))])
         o["suffix"] = suffix
+    # ---- one row with far-out-of-range (finite) values next to ordinary rows: softmax shifts, eps terms ---------
+    outl = []
+    for scale in (1e4, 1e8):
+        r0 = B - 1
+        x2 = x.clone()
+        x2[r0] *= scale
+        xp2 = None
+        if xp is not None:
+            xp2 = xp.clone()
+            xp2[r0] *= scale
+        y2, c2 = call(layer, case, x2, xp2)
+        fin = bool(torch.isfinite(y2).all() and (c2 is None or torch.isfinite(c2).all()))
+        others = [r for r in P.changed_rows(out, y2) if r != r0]
+        outl.append([scale, fin, others])
+    o["outlier"] = outl
     # ---- Trompt: shapes that disagree with the configuration must be rejected --------------------------
     if kind in ("trompt_conv", "trompt_decoder", "excel_conv"):
         o["rejections"] = _rejections(case, layer, x, xp)
     if kind in ("tab_conv", "excel_conv"):
         o["max_score"] = max_score(case, layer, x)
-        o["core_fp"] = attention_core_probe(case, layer)
+        o["core_fp"] = attention_core_probe(case, layer) if nin <= 16 else None
     return o
 
 
@@ -478,24 +572,31 @@ def oracle(case, obs):
                         observed=obs["perm_cls_diff"])
     # footprints: independent expectation straight from the property text
     n_out = len(obs["colfp"][0]) if obs["colfp"] else 0
+    pc = obs.get("colfp_cols", list(range(nin)))
+    for scale, fin, others in obs.get("outlier", []):
+        if others:
+            return dict(key=f"row-leak:{k}", what=f"{k}: scaling the last row by {scale:g} changed rows {others[:6]}")
+        if not fin:
+            return dict(key=f"non-finite:{k}", what=f"{k}: a row with values of the order {scale:g} (finite) next to "
+                        f"ordinary rows gives a non-finite output")
     if k == "excel_conv":
-        for c in range(nin):
+        for ci, c in enumerate(pc):
             for j in range(n_out):
-                if obs["colfp"][c][j] and c > j:
+                if obs["colfp"][ci][j] and c > j:
                     return dict(key=f"not-causal:{k}", what=f"{k}: output column {j} is influenced by the LATER column "
                                 f"{c}", expected=False, observed=True)
         for i, same_prefix, changed in obs["suffix"]:
             if not same_prefix:
                 return dict(key=f"not-causal:{k}", what=f"{k}: perturbing the columns after {i} changed the output for "
                             f"columns <= {i} (an exact-zero influence is required: H_mask_kills)", expected="bit-identical")
-    for c in range(nin):
+    for ci, c in enumerate(pc):
         for j in range(n_out):
             exp = (c <= j) if k == "excel_conv" else True
-            if exp and not obs["colfp"][c][j]:
+            if exp and not obs["colfp"][ci][j]:
                 return dict(key=f"no-influence:{k}", what=f"{k}: input column {c} never influenced output column {j} in "
                             f"{TRIALS} trials with re-drawn parameters", expected=True, observed=False)
     if k == "ft_convs":
-        for c, reached in enumerate(obs["cls_reach"]):
+        for c, reached in zip(pc, obs["cls_reach"]):
             if not reached:
                 return dict(key=f"no-influence:{k}", what=f"{k}: column {c} never influenced the CLS output")
     if k == "trompt_conv":
@@ -561,6 +662,12 @@ def stats(cases, obss):
             if cond:
                 bd[name] = bd.get(name, 0) + 1
         bd["B=0 (probed in every case)"] = d["total"]
+        if c["cols"] > 16 and c["kind"] != "trompt_decoder":
+            for lo, hi, name in ((0, 128, "<=128"), (128, 256, "129..256"), (256, 10 ** 6, ">256")):
+                if lo < c["cols"] <= hi:
+                    bd[f"{c['kind']}:cols{name}"] = bd.get(f"{c['kind']}:cols{name}", 0) + 1
+        if o.get("ok") and o.get("outlier"):
+            bd["outlier_row_probes"] = bd.get("outlier_row_probes", 0) + len(o["outlier"])
         for k, v in (("kinds", c["kind"]), ("B", c["B"]), ("cols", c["cols"]), ("heads", c["heads"])):
             d[k][str(v)] = d[k].get(str(v), 0) + 1
         if not o.get("ok"):
@@ -686,8 +793,27 @@ def selftest_discrimination(rng):
     return fails, {"selftest_terms": len(terms), "selftest_wrong": len(bad)}
 
 
+def constructor_probes():
+    """Configurations the constructors must reject."""
+    from torch_frame.nn import ExcelFormerConv
+    fails, n = [], 0
+    for ch, heads in ((6, 4), (5, 2), (8, 3)):
+        n += 1
+        try:
+            ExcelFormerConv(channels=ch, num_cols=3, num_heads=heads)
+            fails.append(dict(key="accepts-invalid-config:excel_conv", case=None,
+                              what=f"ExcelFormerConv(channels={ch}, num_heads={heads}) was constructed although the "
+                                   f"channels are not divisible by the heads"))
+        except Exception:
+            pass
+    return fails, n
+
+
 def extra(tier, rng):
+    f0, n0 = constructor_probes()
     f1, info = validate_mask_float(rng)
+    f1 = f0 + f1
+    info = dict(info, constructor_probes=n0)
     f2, n = validate_torch_blocks(rng)
     f3, info3 = selftest_discrimination(rng)
     return f1 + f2 + f3, dict(info, torch_block_axis_checks=n, **info3)
@@ -726,6 +852,10 @@ def sanity(cases, obss):
         need += [f"{k}:cols=1", f"{k}:channels==heads", f"{k}:cols==heads"]
     need += ["trompt_conv:prompts==groups", "trompt_conv:groups=1", "trompt_decoder:out=1", "excel_decoder:out=1",
              "excel_decoder:cols=1"]
+    for k in KINDS:
+        if k != "trompt_decoder":
+            need += [f"{k}:cols129..256", f"{k}:cols>256"]
+    need.append("outlier_row_probes")
     for k in need:
         if bd.get(k, 0) == 0:
             probs.append(f"boundary {k} never hit")
@@ -747,6 +877,8 @@ def coq_term(case, obs, kind=None):
     the rejection (None) branches."""
     if not obs.get("ok"):
         return None
+    if n_in(case) > 16:
+        return None          # wide inputs (128 / 256 boundaries of integer buffers): oracle only, see ASSUMPTIONS
     k = kind or case["kind"]
     B, cols, Pn, ch, h, out = case["B"], case["cols"], case["prompts"], case["channels"], case["heads"], case["out"]
     rows = "[" + "; ".join(f"({r}, {P.cnats(chd)})" for r, chd in obs["rows"]) + "]"
